@@ -87,7 +87,8 @@ CLAIMED["C07"] = dict(
     text="C07_registered_convertible: once applied, every conjugated form whose reading is spelled in the dictionary alphabet is offered for its reading (untruncated list); C07_only_adds; guessed classes always contain the form before ない; "
          "C07_no_deadlock: the updater and the handlers take their mutexes in one rank order on this run's extracted protocol. The real server is driven with registrations of every kind and ending; expected forms come from the real library AND from a "
          "hand-written grammar corpus (行かない→行っ, 可愛い, 静かだ ...), so a defect in the conjugation itself is seen too; registrations race with conversions under injected delays; "
-         "groups of same-reading registrations (40 homophones, guessed verbs) also travel as ONE JSON-RPC batch so that the updater finds several entries waiting.",
+         "groups of same-reading registrations (40 homophones, guessed verbs) also travel as ONE JSON-RPC batch so that the updater finds several entries waiting; "
+         "every third history travels over one long-lived WebSocket connection; after a save, SIGHUP (ending the server, which is started again, or handled by it) must leave every registered word offered.",
     note="partial: 'within bounded time' = no deadlock (proved on the extracted protocol) + the asynchronous hand-off observed by polling; the server's n = 100 truncation is outside the offer clause. " + SRV_NOTE, ref="6/C07")
 CLAIMED["C08"] = dict(
     technique="Coq proof (restore = filter of printable entries, synced invariant, exact restart theorem) + kernel-checked refutation witness + real-server save/stop/start histories",
@@ -149,7 +150,7 @@ CLAIMED["C15"] = dict(
     text="Kernel-checked: in both conversion handlers extracted on every run the session is inserted into the store before the response is produced (C15_insert_before_respond, C15_responded_implies_stored; the send-to-recorder-then-respond shape before repair F5 is refuted); "
          "a registration is sent to the single consuming updater before it is acknowledged (C15_registration_sent_before_ack, C15_single_consumer); in the sequential server model the session a conversion issues is stored when it returns and survives ANY history "
          "that neither confirms it nor restarts the server - no eviction, however many sessions pile up (C15_conversion_stores_session, C15_session_survives, induction over histories). "
-         "Every run confirms candidates the instant the response arrives, with delays injected at the store sites, lets 1100 conversions go unconfirmed while confirming fresh ones at 127..1025 outstanding and the very first one at the end, and checks that each confirmation is counted.",
+         "Every run confirms candidates the instant the response arrives, with delays injected at the store sites, lets 1100 conversions go unconfirmed while confirming fresh ones at 127..1025 outstanding and the very first one at the end, and checks that each confirmation is counted. The outstanding-sessions scenario runs once more on ONE WebSocket connection that stays open (300 conversions), as the Emacs client talks to the server.",
     note="partial: mpsc delivery and the updater's liveness are assumptions (observed by quiescing the real server). " + PROTO_NOTE,
     ref="6/C15")
 PENDING = {}
